@@ -2,13 +2,13 @@
 reading or purging, by any of the five commands."""
 import os
 
-from .. import gen, putcheck, run, snap, spec, trashgen, trashio, trashworld, world
+from .. import gen, putcheck, run, sched, snap, spec, trashgen, trashio, trashworld, world
 
 ID = 'C08'
 
 STATES = ['sticky', 'nonsticky', 'link_sticky', 'link_nonsticky', 'file',
           'absent']
-CMDS = ['put', 'list', 'restore', 'empty', 'empty-days', 'rm']
+CMDS = ['put', 'list', 'restore', 'empty', 'empty-days', 'rm', 'put2-toggle']
 
 
 def config(tier):
@@ -80,6 +80,8 @@ def gen_case(rng, index, tier):
     L.add({'p': L.vol_path(tv, 'work'), 't': 'd'})
     L.add(gen.entry_nodes(rng, L.vol_path(tv, 'work/victim'), 'file',
                           'victim%d' % index))
+    L.add(gen.entry_nodes(rng, L.vol_path(tv, 'work/victim2'), 'file',
+                          'victim2-%d' % index))
     L.cwd = L.vol_path(tv, 'work')
     case = L.desc()
     case['state'] = state
@@ -89,8 +91,70 @@ def gen_case(rng, index, tier):
     case['canaries'] = canaries
     case['normal'] = normal
     case['cmd'] = rng.choice(CMDS)
+    if case['cmd'] == 'put2-toggle' and (state != 'sticky' or tv == ''):
+        case['cmd'] = 'put'
+    case['toggle'] = rng.choice(['unsticky', 'symlink', 'file'])
     case['env'] = dict(case['env'], TRASH_DATE='2020-01-01T00:00:00')
     return case
+
+
+def toggle_case(case, w, out):
+    """.Trash is secure while the first argument is handled and becomes
+    insecure (another process: chmod -t / replaced by a symlink / by a file)
+    before the second one is: the second must fall through to .Trash-$uid"""
+    obs = out['obs']
+    uid = case['uid']
+    top = w.abs(case['top'])
+    state = {'done': False}
+
+    def choose(step, enabled, last, reqs):
+        req = reqs[enabled[0]]
+        # the first payload has been delivered: the next visible operation
+        # belongs to the second argument
+        if not state['done'] and state.get('renamed'):
+            if case['toggle'] == 'unsticky':
+                os.chmod(top, 0o755)
+            else:
+                os.rename(top, top + '.moved-away')
+                if case['toggle'] == 'symlink':
+                    os.symlink(top + '.moved-away', top)
+                else:
+                    with open(top, 'w') as f:
+                        f.write('now a file')
+            state['done'] = True
+        if req.startswith('rename '):
+            state['renamed'] = True
+        return enabled[0]
+
+    s0 = w.snapshot()
+    results, trace, err = sched.run_schedule(
+        w, [{'args': ['--', 'victim', 'victim2'], 'cwd': w.cwd()}],
+        w.abs(case['tv']) if case['tv'] else w.R, choose)
+    s1 = w.snapshot()
+    r = results[0]
+    obs['insecure_cmd_runs'] = 1
+    obs['toggle_runs'] = 1
+    if err or not state['done']:
+        out['verdict'] = 'inconclusive'
+        out['why'] = err or 'toggle point not reached'
+        return out
+    tv = case['tv']
+    alt = (tv + '/' if tv else '') + '.Trash-%d' % uid
+    moved = case['top'] + '.moved-away' if case['toggle'] != 'unsticky' else case['top']
+    in_top = [k for k in s1 if k.startswith(moved + '/%d/files/victim2' % uid)]
+    in_alt = (alt + '/files/victim2') in s1 and (alt + '/info/victim2.trashinfo') in s1
+    if in_top or not in_alt:
+        out['violations'].append({
+            'mechanism': 'put-used-insecure-trash-after-it-changed/%s' % case['toggle'],
+            'detail': {'run': r.brief(), 'trace': trace[-12:], 'in_top': in_top,
+                       'in_alt': in_alt}})
+    else:
+        obs['put_fell_through'] = 1
+    out['nontrivial'] = True
+    out['sample_obs'] = {'exit': r.exit, 'toggle': case['toggle'],
+                         'stderr': r.errtext()[-200:]}
+    out['verdict'] = 'violation' if out['violations'] else 'ok'
+    return out
 
 
 def run_case(case):
@@ -107,6 +171,8 @@ def run_case(case):
         exp_put, _ = spec.expected_trash_dirs(
             os.path.join(w.cwd(), 'victim'), w.env(), uid, w.mounts)
         udir_rel = case['realtop'] + '/%d' % uid
+        if cmd == 'put2-toggle':
+            return toggle_case(case, w, out)
         if cmd == 'put':
             r = run.run(w, 'put', ['victim'], stdin=b'')
         elif cmd == 'list':
